@@ -83,35 +83,22 @@ Theorem unpack_links_inside_on_D : forall cfg req fs es,
 Proof. exact unpack_links_inside_on_D_lemma. Qed.
 Print Assumptions unpack_links_inside_on_D.
 
-(* What is still false for the code as it is (link targets with ".."): *)
-
-(* "s" -> ".", "a/t" -> "../s/..": nothing outside changes, but a link left in the target
-   resolves to the target's parent (TargetOutsideRoot is lexical) *)
-Theorem unpack_link_escape_refuted :
-  exists cfg fs es,
-    clean (u_dir cfg) = u_dir cfg /\ phys_dir fs [] (csegs (u_dir cfg)) = true /\
-    all_changes_inside (csegs (u_dir cfg)) fs (fst (unpack_all cfg W.all_req fs es)) = true /\
-    links_resolve_inside (csegs (u_dir cfg)) (fst (unpack_all cfg W.all_req fs es)) = false.
-Proof. exact unpack_link_escape_refuted_lemma. Qed.
-Print Assumptions unpack_link_escape_refuted.
-
-(* ... and what remains of the write through such a link ("a/t/target-evil/f"): no entry name
-   climbs, NO FILE is written outside any more, but MkdirAll (which runs before the check and
-   follows links) still creates the directory "target-evil" outside the target *)
-Theorem unpack_link_mkdir_through_refuted :
-  exists cfg fs es,
-    clean (u_dir cfg) = u_dir cfg /\ phys_dir fs [] (csegs (u_dir cfg)) = true /\
-    forallb (fun e => no_dotdot (csegs (e_name e))) es = true /\
-    file_outside (csegs (u_dir cfg)) fs (fst (unpack_all cfg W.all_req fs es)) = false /\
-    all_changes_inside (csegs (u_dir cfg)) fs (fst (unpack_all cfg W.all_req fs es)) = false.
-Proof. exact unpack_link_mkdir_through_refuted_lemma. Qed.
-Print Assumptions unpack_link_mkdir_through_refuted.
-
 (* regression of the fixed defects: the former witnesses leave the file system untouched *)
 Example unpack_former_witnesses_fixed :
   unpack_all W.cfg W.all_req W.fs0 W.es_prefix = (W.fs0, false) /\
   unpack_all W.cfg W.all_req W.fs0 W.es_mkdir = (W.fs0, false).
 Proof. exact unpack_prefix_confusion_fixed_lemma. Qed.
+
+(* ... and the former link-escape witnesses ("s" -> ".", "a/t" -> "../s/..", then
+   "a/t/target-evil/f"): the escaping link is swept, nothing is created outside *)
+Example unpack_former_link_witnesses_fixed :
+  let r1 := unpack_all W.cfg W.all_req W.fs0 W.es_link in
+  let r2 := unpack_all W.cfg W.all_req W.fs0 W.es_link_write in
+  snd r1 = false /\ snd r2 = false /\
+  all_changes_inside W.ds W.fs0 (fst r1) = true /\ links_resolve_inside W.ds (fst r1) = true /\
+  all_changes_inside W.ds W.fs0 (fst r2) = true /\ links_resolve_inside W.ds (fst r2) = true /\
+  lookup (fst r1) (W.ds ++ [[97]; [116]]) = None /\ lookup (fst r1) (W.ds ++ [[115]]) = Some (NLink [46]).
+Proof. exact unpack_link_escape_fixed_lemma. Qed.
 
 (* ================= non-vacuity ================= *)
 Definition str_a : bytes := [97].
